@@ -91,6 +91,44 @@ def selector_witness(res):
             res.violation("C19.3.selector-all-runtimes", f, "<selector>", comp, line, "with OpenMP, Specx and StarPU all enabled the selector header does not build: " + msg[:300])
 
 
+POSITIONS_TU = witness.HEADERS + """
+#include "algorithms/sequential/tbfalgorithm.hpp"
+#include "kernels/testkernel/tbftestkernel.hpp"
+#include <deque>
+using RealType = double; constexpr long int Dim = 3;
+// README: the positions "must be a container that supports std::size and which has two dimensions"
+template <class PositionsClass>
+long int witnessPositions(const TbfSpacialConfiguration<RealType, Dim>& conf, const PositionsClass& positions){
+    TbfTree<RealType, RealType, Dim, long int, 1, std::array<long int,1>, std::array<long int,1>> tree(conf, positions);
+    TbfAlgorithm<RealType, TbfTestKernel<RealType>> algorithm(conf);
+    algorithm.execute(tree);
+    tree.rebuild();
+    return tree.getNbParticles();
+}
+long int witnessBuiltInArray(const TbfSpacialConfiguration<RealType, Dim>& conf){
+    const std::array<RealType, Dim> positions[4] = {{{0.1,0.1,0.1}}, {{0.9,0.1,0.1}}, {{0.1,0.9,0.1}}, {{0.5,0.5,0.5}}};
+    return witnessPositions(conf, positions);
+}
+long int witnessDeque(const TbfSpacialConfiguration<RealType, Dim>& conf, const std::deque<std::array<RealType, Dim>>& positions){
+    return witnessPositions(conf, positions);
+}
+"""
+
+
+def positions_witness(res, tier, R="C19.7.positions-container"):
+    """the documented requirement on the positions handed to the tree is `std::size` plus two subscripts: a built-in array of std::array
+    satisfies it (and has no .size() member)"""
+    for comp in (("g++",) if tier == "quick" else ("g++", "clang++")):
+        rc, err = tbf.compile_witness(POSITIONS_TU, compiler=comp, name="c19_positions.cpp", max_errors=5)
+        res.obligations += 1
+        res.instance(R, comp, "witness:c19_positions", "tree built, executed and rebuilt from a built-in array and from a std::deque of positions: rc=%d" % rc)
+        if rc == 0:
+            res.discharged += 1
+        else:
+            f, line, msg, _ = witness.first_src_error(err)
+            res.violation(R, f, "<witness c19_positions>", "%s:%d" % (f, line), line, "a positions container that supports std::size and two subscripts (README) is rejected (%s): %s" % (comp, msg[:260]))
+
+
 def tbf_result(pid):
     import tbf
     return tbf.Result(pid)
@@ -163,6 +201,8 @@ def run(res, tier):
         res.violation("C19.1.config-compiles", f, "<witness %s>" % nm, key, line, "configuration %s does not compile (%s): %s" % (nm, comp, msg[:240]))
     res.floor("C19.1", len(runs), 20, "witness compilations")
     selector_witness(res)      # one compilation; in both tiers
+    res.rule("C19.7 the positions container needs only std::size and two subscripts (README): compile witness with a built-in array and a std::deque")
+    positions_witness(res, tier)
     ordering_agreement(res)
     dimension_algebra(res)
     # the configurations with a data type wider than the coordinate type: nothing narrows a particle's value implicitly on the way to its leaf
